@@ -78,6 +78,7 @@ type Exec struct {
 	curBinders []string
 	vacSeq     int
 	loopEntry  map[int]*State
+	itTable    map[string]itInfo
 	macros     map[string]bool
 	loopEffects map[*ssa.BasicBlock]*effects
 	entryMods  *modSet
@@ -96,7 +97,7 @@ func newExec(w *World, fn *ssa.Function, con *Contract) *Exec {
 		globals: map[string]Val{}, fams: map[string]famSig{}, written: map[string]bool{}, closures: map[string]ClosureV{}, funcvals: map[string]FuncV{},
 		localAddrs: map[string]LocalAddr{}, strlits: map[string]string{}, callStats: map[string]map[string]int{}, usedContracts: map[string]bool{},
 		lets: map[string]TV{}, stepBudget: 4000000, pathLimit: 6000,
-		declOwner: map[string]string{}, decAtHead: map[*ssa.BasicBlock]string{}, loopEntry: map[int]*State{}, famBirth: map[string]string{}, epochAlloc: map[int]string{0: "|$alloc@e0|"}, macros: map[string]bool{}, loopEffects: map[*ssa.BasicBlock]*effects{}, loopSets: map[*ssa.BasicBlock]map[*ssa.BasicBlock]bool{}, usedSpecFuncs: map[string]bool{}, namedPreds: map[string]string{}}
+		declOwner: map[string]string{}, decAtHead: map[*ssa.BasicBlock]string{}, itTable: map[string]itInfo{}, loopEntry: map[int]*State{}, famBirth: map[string]string{}, epochAlloc: map[int]string{0: "|$alloc@e0|"}, macros: map[string]bool{}, loopEffects: map[*ssa.BasicBlock]*effects{}, loopSets: map[*ssa.BasicBlock]map[*ssa.BasicBlock]bool{}, usedSpecFuncs: map[string]bool{}, namedPreds: map[string]string{}}
 	e.decl("(declare-sort Ref 0)")
 	e.decl("(declare-const null Ref)")
 	return e
